@@ -84,18 +84,31 @@ def obligations_hi_lo_eval(ctx, h):
 
     def run_eval(cls):
         def body(run):
-            inner = I.SObj(I.ClassVal('InnerExpr', [h.env.vars['Expr']], {
-                'eval': I.Builtin('inner.eval', lambda it, a, k: run.dom.var('v'))}), {})
+            # the label table changes between evaluations of the same expression object (layout passes shrink labels):
+            # the inner expression returns an arbitrary EARLIER value first, then v; the result must be that of v
+            calls = {'n': 0}
+
+            def inner_eval(it, a, k):
+                calls['n'] += 1
+                return run.dom.var('v_earlier') if calls['n'] == 1 else run.dom.var('v')
+            inner = I.SObj(I.ClassVal('InnerExpr', [h.env.vars['Expr']], {'eval': I.Builtin('inner.eval', inner_eval)}), {})
             it = I.Interp(run, h.base_it.mods)
             obj = it.instantiate(cls, [inner], {})
-            return it.call(it.getattr(obj, 'eval'), [run.dom.var('position'), I.Opaque('env'), I.Opaque('line')], {})
+            pos = run.dom.var('position')
+            it.call(it.getattr(obj, 'eval'), [pos, I.Opaque('env'), I.Opaque('line')], {})
+            if calls['n'] < 2:
+                calls['n'] = 1
+            r = it.call(it.getattr(obj, 'eval'), [pos, I.Opaque('env'), I.Opaque('line')], {})
+            run.notes['inner_calls'] = calls['n']
+            return r
         return I.explore(body, I.IntDom)
     ph, pl = run_eval(Hi), run_eval(Lo)
     v = z3.Int('v')
     rp = ('hilo_eval', {})
     for i, a in enumerate(ph):
         for j, b in enumerate(pl):
-            ok = a.kind == 'return' and b.kind == 'return' and isinstance(a.value, I.Sym) and isinstance(b.value, I.Sym)
+            ok = a.kind == 'return' and b.kind == 'return' and isinstance(a.value, I.Sym) and isinstance(b.value, I.Sym) \
+                and a.notes.get('inner_calls') == 2 and b.notes.get('inner_calls') == 2      # the inner value is re-read on every call
             if ok:
                 goal = z3.And(a.value.t >= -2 ** 19, a.value.t < 2 ** 19, b.value.t >= -2 ** 11, b.value.t < 2 ** 11,
                               ((a.value.t * 4096 + b.value.t - v) % (2 ** 32)) == 0)
@@ -151,14 +164,17 @@ def replay_relocate(ctx, d, model):
 def replay_hilo_eval(ctx, d, model):
     from pyvc.real import real
     v = int(model.get('v', 0))
+    v0 = int(model.get('v_earlier', v + 4))
     r = real()
-    hi = r.req({'op': 'method', 'obj': {'__expr__': "Hi(Arithmetic(%r))" % str(v)}, 'name': 'eval', 'args': [0, {}, None]})
-    lo = r.req({'op': 'method', 'obj': {'__expr__': "Lo(Arithmetic(%r))" % str(v)}, 'name': 'eval', 'args': [0, {}, None]})
-    bad = not ('ok' in hi and 'ok' in lo and -2 ** 19 <= hi['ok'] < 2 ** 19 and -2 ** 11 <= lo['ok'] < 2 ** 11
-               and ((hi['ok'] << 12) + lo['ok'] - v) % 2 ** 32 == 0)
+    out = {}
+    for nm in ('Hi', 'Lo'):
+        out[nm] = r.req({'op': 'eval_twice', 'obj': {'__expr__': "%s(Offset('L'))" % nm}, 'position': 0, 'env1': {'L': v0}, 'env2': {'L': v}})
+    hi, lo = out['Hi'].get('ok', [None, None])[1], out['Lo'].get('ok', [None, None])[1]
+    bad = not (isinstance(hi, int) and isinstance(lo, int) and -2 ** 19 <= hi < 2 ** 19 and -2 ** 11 <= lo < 2 ** 11
+               and ((hi << 12) + lo - v) % 2 ** 32 == 0)
     return {'confirmed': bad, 'key': 'hilo-eval:v=%d' % v,
-            'what': 'Hi(%d).eval / Lo(%d).eval = %r / %r do not fit or do not rebuild the value' % (v, v, hi, lo),
-            'input': {'v': v}, 'observed': {'hi': hi, 'lo': lo}}
+            'what': '%%hi/%%lo of an expression worth %d (after it was worth %d at the same position) evaluate to %r / %r: they do not rebuild the value' % (v, v0, hi, lo),
+            'input': {'v': v, 'earlier_value': v0}, 'observed': out}
 
 
 def replay_call_int(ctx, d, model):
